@@ -150,6 +150,8 @@ class Verifier(Engine):
             raise CheckerError("precondition of %s is unsatisfiable or undecided (vacuity check)" % c.func)
         fx.handler_exc = []
         fx.used = set()
+        if c.opts.get("value_mode"):
+            self.vm_checkpoint(st)
         outs = self.run_block(fsrc.node.body, st, fx)
         for u in c.uses:
             if u["after"] not in fx.used:
@@ -514,6 +516,7 @@ class Verifier(Engine):
                 self.assumptions.add("A-UNBOUND: a local first assigned inside a loop is treated as bound after the loop")
         pnames, whole = heap_effects(node.body, self)
         h = st.heap
+        refs = None
         if whole:
             a = {n: fresh(n, HEAP_SORTS[n]) for n in HEAP_NAMES}
             na = fresh("alloc", IntS)
@@ -551,6 +554,19 @@ class Verifier(Engine):
             na = fresh("alloc", IntS)
             st.assume(na >= h.alloc)
             h.alloc = na
+        if fx.contract.opts.get("value_mode"):
+            # inputs are never written in value mode (frame obligations): they survive any havoc
+            from .ex import FRONT
+            from .tr import forall as _forall
+            r = z3.Int("r!")
+            if whole or (pnames and refs is None):
+                for m in HEAP_NAMES:
+                    st.assume(_forall([r], z3.Implies(z3.And(r >= 0, r < FRONT), h.a[m][r] == self.h0.a[m][r]), [h.a[m][r]]))
+            opens_before = st.ghost.get("_open", ())
+            self.vm_checkpoint(st)
+            # builders that stay open across the loop: those not re-bound (their refs are stable)
+            st.ghost["_open"] = opens_before
+            st.ghost["_loop_open"] = opens_before
         return stable
 
     def check_invs(self, kind, sp, st, fx, line, pre_loop, extra_bound=None):
@@ -606,6 +622,12 @@ class Verifier(Engine):
         return res
 
     def back_edge(self, sp, s2, fx, line, stable, m0, extra_bound=None):
+        if fx.contract.opts.get("value_mode"):
+            lo = s2.ghost.get("_loop_open", ())
+            now = s2.ghost.get("_open", ())
+            for b in lo:
+                if not any(b.eq(x) for x in now):
+                    raise OutOfSubset("a builder that was open at the loop head escapes inside the loop body (line %d)" % line)
         for n, k in stable:
             x = normT(s2.env[n])
             if x.k != k:
